@@ -12,6 +12,7 @@ package pattern
 //@ spec hm(s string, i int, open bool) bool
 
 //@ func HasMeta
+//@ noauto
 //@ props C18
 //@ assume [hm-def] forall(j, forall(o, bool, hm(pat, j, o) == ite(j < 0 || j >= len(pat), false,
 //@     ite(pat[j] == '\\', hm(pat, j+2, o), ite(isStar(pat[j]), true, ite(pat[j] == '[', hm(pat, j+1, true),
@@ -36,6 +37,7 @@ package pattern
 //@ spec runeStart(s string, k int) bool
 
 //@ func QuoteMeta
+//@ noauto
 //@ props C18
 //@ assume [rune-start-zero] runeStart(pat, 0)
 //@ assume [rune-start-step] forall(k, trig(utf8w(pat, k), implies(0 <= k && k < len(pat) && runeStart(pat, k), runeStart(pat, k + utf8w(pat, k)))))
